@@ -109,3 +109,13 @@ PLANS["C10"]["assumptions"] = PLANS["C10"]["assumptions"] + CONC_ASSUME
 # C11: "no entry is lost, duplicated or resurrected by a grow, a shrink or a Clear" also under concurrent use
 PLANS["C11"]["jobs"] = multi(simple("seqmap", (1200, 0), (60000, 0)), seq_plan((600, 6), (40000, 200)), simple("linzmap", (3000, 0), (100000, 0)))
 PLANS["C11"]["assumptions"] = SEQ_ASSUME + CONC_ASSUME
+
+
+# two-goroutine schedule enumeration (pairstall): deterministic detection of check-order / publish-order / lock-skipping bugs
+def pair_jobs(tier, cores):
+    n = 1 if tier == "quick" else 3
+    return striped("pairstall", n, 0, min(cores, 12))
+
+
+for _p in ("C02", "C03", "C04", "C12"):
+    PLANS[_p]["jobs"] = multi(PLANS[_p]["jobs"], pair_jobs)
